@@ -153,6 +153,11 @@ def render_verilog(vm, rng, style):
 
     def ex(e):
         if isinstance(e, list): return '{' + (',' + W).join(ex(x) for x in e[1:]) + '}'
+        m = re.fullmatch(r"(\d+)'b([01]+)", e)
+        if m and style.get('constfmt', 'b') != 'b':          # the same constant in another base / letter case
+            w, v = int(m.group(1)), int(m.group(2), 2)
+            f = style['constfmt']
+            return f"{w}'{f}{v:x}" if f in 'hH' else (f"{w}'{f}{v}" if f in 'dD' else f"{w}'{f}{m.group(2)}")
         return e
     for cell, iname, pins in vm['inst']:
         items = list(pins.items())
@@ -167,6 +172,7 @@ def render_verilog(vm, rng, style):
     out.append(f'module{W}top{W}({(","+W).join(hdr)});')
     for s_ in stmts:
         out.append(s_)
+        if style['comments'] and rng.random() < 0.5: out.append(rng.choice(['/** doc **/', '/****/', '/* x**/', '/* a * b */', '/***/']) )
         if style['comments'] and rng.random() < 0.4: out.append(rng.choice((['// note ; endmodule', '// y'] if style['ws'] != 'dense' else []) + ['/* x */', '(* attr *)' if style['attrs'] else '/* y ; */']))
     out.append('endmodule')
     return nl.join(out) + '\n'
@@ -181,10 +187,11 @@ def styles(tier, rng):
     S.append(dict(base, pinorder='shuffle', comments=True))
     S.append(dict(base, attrs=True, comments=True, ws='wide'))
     S.append(dict(base, ws='dense', decl='joined', pinorder='shuffle'))
+    for f in 'hdBHD': S.append(dict(base, constfmt=f, comments=(f in 'hB')))
     n = 3 if tier == 'quick' else 20
     for _ in range(n):
         S.append(dict(decl=rng.choice(['split', 'joined']), order=rng.choice(['source', 'shuffle']), comments=rng.random() < 0.5, attrs=rng.random() < 0.3,
-                      pinorder=rng.choice(['decl', 'shuffle']), ws=rng.choice(['normal', 'dense', 'wide'])))
+                      pinorder=rng.choice(['decl', 'shuffle']), ws=rng.choice(['normal', 'dense', 'wide']), constfmt=rng.choice('bbhdBHD')))
     return S
 
 
